@@ -50,6 +50,12 @@ func Guarded(f func()) (msg string) {
 
 // History runs one tree in one schedule on a fresh node over db and registers the case.
 func History(r *vh.Run, name string, t *chainx.Tree, ids *IDs, decls map[int]*Decl, sched [][]int, db chain.DB, tags ...string) *Rig {
+	return HistoryVia(r, name, t, ids, decls, sched, nil, db, tags...)
+}
+
+// HistoryVia is History with a choice of ingestion path per batch: via[i] asks for
+// AddValidatedV2Blocks (used when the batch qualifies as pre-validated).
+func HistoryVia(r *vh.Run, name string, t *chainx.Tree, ids *IDs, decls map[int]*Decl, sched [][]int, via []bool, db chain.DB, tags ...string) *Rig {
 	c := &vh.Case{Name: name, Model: fmt.Sprintf("elements node %d", t.Net.N.HardforkV2.RequireHeight)}
 	rig, err := NewRig(c, t, ids, decls, db)
 	if err != nil {
@@ -60,7 +66,7 @@ func History(r *vh.Run, name string, t *chainx.Tree, ids *IDs, decls map[int]*De
 	rig.Prelude()
 	rig.CompareWithTwin("after NewDBStore")
 	for i, batch := range sched {
-		res := rig.Submit(batch)
+		res := rig.SubmitVia(batch, i < len(via) && via[i])
 		if res == "panic" {
 			if len(c.Fails) == 0 {
 				c.Oracle("addblocks-panic", "AddBlocks panicked on batch %v: %s", batch, rig.PanicMsg)
@@ -84,6 +90,9 @@ func History(r *vh.Run, name string, t *chainx.Tree, ids *IDs, decls map[int]*De
 	c.Tags = append(c.Tags, tags...)
 	if rig.Reverts > 0 {
 		c.Tags = append(c.Tags, "has-revert")
+	}
+	if rig.V2Batches > 0 {
+		c.Tags = append(c.Tags, "has-prevalidated-batch")
 	}
 	if rig.UnstableRevs > 0 {
 		c.Tags = append(c.Tags, "history:reverted-unstable-block")
@@ -376,6 +385,55 @@ func DirectedCheckpoint(r *vh.Run, rng *vh.RNG, name string) {
 	r.Add(c)
 }
 
+// DirectedSideThenValidated: above the require height the node sits on branch A; the first blocks
+// of a competing branch B arrive through AddBlocks while B is still lighter (stored as side blocks
+// with header-level states); then the whole of B, now heavier, arrives through
+// AddValidatedV2Blocks and triggers the reorg; finally a still heavier branch C that forks off one
+// of those early B blocks arrives through AddBlocks, so the node reverts down to that block and
+// resumes from the state it has stored for it.
+func DirectedSideThenValidated(r *vh.Run, rng *vh.RNG, name string) {
+	t, sched, via := SideThenValidatedShape(rng)
+	ids := NewIDs()
+	rig := HistoryVia(r, name, t, ids, Declare(t, ids), sched, via, chain.NewMemDB(), "directed:side-then-prevalidated")
+	if rig != nil && rig.V2Batches == 0 {
+		c := &vh.Case{Name: name + "/shape"}
+		c.Oracle("generator-shape", "the directed history did not submit a pre-validated batch")
+		r.Add(c)
+	}
+}
+
+// SideThenValidatedShape builds the tree, the schedule and the ingestion paths of
+// DirectedSideThenValidated.
+func SideThenValidatedShape(rng *vh.RNG) (*chainx.Tree, [][]int, []bool) {
+	net := chainx.NewNet(rng, 1, uint64(1+rng.Intn(2)), 2)
+	t := chainx.NewTree(net)
+	kinds := []string{"v2pay", "v2eph", "v2sf", "v2fc", "v2rev", "v2proof"}
+	spec := func() chainx.Spec {
+		var ks []string
+		for n := 1 + rng.Intn(2); n > 0; n-- {
+			ks = append(ks, kinds[rng.Intn(len(kinds))])
+		}
+		return chainx.Spec{Kinds: ks, Dt: 1 + rng.Intn(2)}
+	}
+	mine := func(at, n int) []int {
+		var out []int
+		for i := 0; i < n; i++ {
+			at = t.Mine(rng, at, spec())
+			out = append(out, at)
+		}
+		return out
+	}
+	req := int(net.N.HardforkV2.RequireHeight)
+	trunk := mine(0, req+1+rng.Intn(2)) // ends above the require height
+	fork := trunk[len(trunk)-1]
+	la := 3 + rng.Intn(2)
+	a := mine(fork, la)
+	b := mine(fork, la+2+rng.Intn(2))
+	x := 1 + rng.Intn(2) // b[:x] arrive early as side blocks; C forks off b[x-1]
+	cb := mine(b[x-1], len(b)-x+2+rng.Intn(2))
+	return t, [][]int{trunk, a, b[:x], b, cb}, []bool{false, false, false, true, false}
+}
+
 func firstLine(s string) string {
 	if i := strings.IndexByte(s, '\n'); i >= 0 {
 		return s[:i]
@@ -532,6 +590,10 @@ func Run(r *vh.Run) {
 			be.Close()
 			os.RemoveAll(dir)
 		})
+	}
+	for i := 0; i < r.Pick(4, 40); i++ {
+		vrng := rng.Fork()
+		Safely(r, "side-then-prevalidated", func() { DirectedSideThenValidated(r, vrng, fmt.Sprintf("side-then-prevalidated%d", i)) })
 	}
 	for i := 0; i < r.Pick(3, 40); i++ {
 		crng := rng.Fork()
